@@ -23,7 +23,7 @@ type gobBlob struct {
 	v value
 }
 
-func (r *Run) gobFlatten(t types.Type, v value) value {
+func (r *Run) gobFlatten(fr *frame, t types.Type, v value) value {
 	switch u := t.Underlying().(type) {
 	case *types.Basic:
 		switch x := v.(type) {
@@ -42,7 +42,8 @@ func (r *Run) gobFlatten(t types.Type, v value) value {
 					}
 					return x
 				}
-				panic(unsupported("gob model: symbolic float field"))
+				bits := fbits(fr, x).(*Term)
+				zeroC = r.st.Eq(bits, BV(bits.W, 0))
 			}
 			if r.decideKind(zeroC, "gob-zero") {
 				return gobAbsent{}
@@ -61,11 +62,11 @@ func (r *Run) gobFlatten(t types.Type, v value) value {
 			return gobAbsent{}
 		}
 		if _, isStruct := u.Elem().Underlying().(*types.Struct); isStruct {
-			return r.gobFlattenStruct(u.Elem(), (*p).(structure))
+			return r.gobFlattenStruct(fr, u.Elem(), (*p).(structure))
 		}
-		return r.gobFlatten(u.Elem(), *p)
+		return r.gobFlatten(fr, u.Elem(), *p)
 	case *types.Struct:
-		return r.gobFlattenStruct(t, v.(structure))
+		return r.gobFlattenStruct(fr, t, v.(structure))
 	case *types.Slice:
 		s := v.([]value)
 		if len(s) == 0 {
@@ -81,7 +82,7 @@ func (r *Run) gobFlatten(t types.Type, v value) value {
 	panic(unsupported("gob model: type " + t.String()))
 }
 
-func (r *Run) gobFlattenStruct(t types.Type, s structure) value {
+func (r *Run) gobFlattenStruct(fr *frame, t types.Type, s structure) value {
 	st := t.Underlying().(*types.Struct)
 	out := make(structure, st.NumFields())
 	for i := 0; i < st.NumFields(); i++ {
@@ -90,7 +91,7 @@ func (r *Run) gobFlattenStruct(t types.Type, s structure) value {
 			out[i] = gobAbsent{}
 			continue
 		}
-		out[i] = r.gobFlatten(f.Type(), s[i])
+		out[i] = r.gobFlatten(fr, f.Type(), s[i])
 	}
 	return out
 }
@@ -148,7 +149,7 @@ func registerGobModel(e *Engine) {
 			}
 			t, v = p.Elem(), *pv
 		}
-		flat := r.gobFlatten(t, v)
+		flat := r.gobFlatten(fr, t, v)
 		r.gobTab = append(r.gobTab, gobBlob{t: t, v: flat})
 		id := len(r.gobTab) - 1
 		tok := []value{BV(8, 'G'), BV(8, 'O'), BV(8, 'B'), BV(8, 1), BV(8, uint64(id>>24)&0xff), BV(8, uint64(id>>16)&0xff), BV(8, uint64(id>>8)&0xff), BV(8, uint64(id)&0xff)}
